@@ -12,6 +12,10 @@
 //
 // Part (b): the real LatchesScheduler goroutine with 3 caller goroutines, released one API call
 // at a time with quiescence in between (child process with GOMAXPROCS=1), all orders.
+//
+// Part (c): the same BFS started from cache states that make recycling of expired nodes run
+// (partc.go). Part (d): the user of the latches - the real KVTxn.Commit on a store with latches
+// enabled, bounded exhaustive enumeration of call orders x commit contexts x outcomes (partd.go).
 package main
 
 import (
@@ -359,6 +363,7 @@ type replayArtefact struct {
 	Trace  []string   `json:"trace,omitempty"`
 	Config string     `json:"config,omitempty"`
 	C      *cArtefact `json:"c_case,omitempty"`
+	D      *dCase     `json:"d_case,omitempty"`
 }
 
 func artefact(cfg config, h []uint64) replayArtefact {
@@ -409,7 +414,7 @@ func main() {
 	partB := flag.Bool("partb-child", false, "internal: run part (b) in this process (GOMAXPROCS=1) and print JSON")
 	shard := flag.Int("shard", 0, "internal: part (b) shard")
 	nshard := flag.Int("nshard", 1, "internal: part (b) shard count")
-	only := flag.String("only", "", "a|b|c: run only one part (diagnostics)")
+	only := flag.String("only", "", "a|b|c|d: run only one part (diagnostics)")
 	cpuprof := flag.String("cpuprofile", "", "diagnostics")
 	flag.Parse()
 
@@ -434,7 +439,7 @@ func main() {
 	// part (b) runs concurrently in child processes
 	var bres *bResult
 	var bwg sync.WaitGroup
-	if *only != "a" && *only != "c" {
+	if *only != "a" && *only != "c" && *only != "d" {
 		bwg.Add(1)
 		go func() { defer bwg.Done(); bres = runPartB(thorough) }()
 	}
@@ -443,7 +448,7 @@ func main() {
 	samples := ev.NewSamples(6, run.Seed)
 	var cfgs []config
 	lays := layouts(thorough)
-	if *only != "b" && *only != "c" {
+	if *only != "b" && *only != "c" && *only != "d" {
 		for _, lay := range lays {
 			cfgs = append(cfgs, config{lay, false, 3, 3}) // <= 3 txns first
 		}
@@ -504,7 +509,7 @@ func main() {
 	// (a) on a loaded machine must not starve it)
 	ctot := &cTotals{outcomes: map[string]bool{}}
 	csamples := ev.NewSamples(4, run.Seed)
-	if *only != "a" && *only != "b" {
+	if *only != "a" && *only != "b" && *only != "d" {
 		cBudget := 60 * time.Second
 		if thorough {
 			cBudget = 12 * time.Minute
@@ -514,14 +519,24 @@ func main() {
 		}
 		runPartC(thorough, ctot, csamples, stateCap)
 	}
+	// part (d): the user of the latches - real KVTxn.Commit on a store with latches enabled
+	dtot := &dTotals{}
+	dsamples := ev.NewSamples(16, run.Seed)
+	if *only == "" || *only == "d" {
+		dBudget := 60 * time.Second
+		if thorough {
+			dBudget = 15 * time.Minute
+		}
+		runPartD(thorough, dtot, dsamples, dBudget)
+	}
 	bwg.Wait()
 
 	cov := ev.Coverage{
-		"states":                        tot.states + ctot.states,
-		"transitions":                   tot.transitions + ctot.transitions,
-		"traces_validated_against_impl": tot.transitions + ctot.transitions,
-		"evaluations":                   tot.transitions + ctot.transitions,
-		"distinct_nontrivial":           tot.nontrivial + ctot.nontrivial,
+		"states":                        tot.states + ctot.states + dtot.cases,
+		"transitions":                   tot.transitions + ctot.transitions + dtot.transitions,
+		"traces_validated_against_impl": tot.transitions + ctot.transitions + dtot.cases,
+		"evaluations":                   tot.transitions + ctot.transitions + dtot.transitions,
+		"distinct_nontrivial":           tot.nontrivial + ctot.nontrivial + dtot.nontrivial,
 		"rule": "part (a): BFS over canonical states (white-box slot dump + harness status + ghost, timestamps rank-compressed) of the real Latches; " +
 			"a transition is Start(key set, start ts position), Cont (slot granularity), Unlock(txn, commit ts position or 0) or a scheduler step; every transition's result is checked " +
 			"against the ghost oracle (exclusivity, exact staleness, progress). non-trivial = states in which some lock is blocked, pending wake-up or flagged stale. " +
@@ -530,21 +545,25 @@ func main() {
 			"(P sequential lock/unlock pairs, commit ts 1 ms apart, optionally one without commit ts); then N transactions with <= K keys of that slot (and one of the other slot) whose start ts come from a grid " +
 			"that is less than / exactly / more than expireDuration after the different commit ts, commit ts from the same grid, plus <= R calls of the global recycle(currentTS) between any two steps; " +
 			"oracle as in part (a) with staleness information allowed (not required) to be forgotten once a timestamp >= expireDuration later has been presented. " +
-			"states / transitions / distinct_nontrivial are the sums of parts (a) and (c); per-part numbers under bounds.configs and part_c.",
+			"part (d): every case = (option tuple of 2-3 optimistic transactions: key set, put/insert, commit ctx class or rollback) x (interleaving of their begin/set/commit calls, optionally one foreign commit, optionally one commit parked at its Prewrite/Commit request while it holds its latches), executed on the real KVStore/KVTxn.Commit with latches enabled; " +
+			"checked: refused by the latch exactly when a written key was released by a finished successful commit with a greater commit ts, refused => no prewrite sent, latches free after every return, recorded max commit ts >= commit ts; a state of part (d) = one case, its transitions = real API calls (Begin/Set/Commit/Rollback), non-trivial = some commit refused by the latch, failed in the store, or waited for a latch. " +
+			"states / transitions / distinct_nontrivial are the sums of parts (a), (c) and (d); per-part numbers under bounds.configs, part_c and part_d.",
 		"bounds": map[string]any{"pool_keys": poolSize, "max_depth_reached": tot.maxDepth, "configs": tot.perConfig,
+			"part_d": map[string]any{"latches_size": dLatchSize, "pools": dPools, "max_calls_per_schedule": dtot.maxEvents, "ctx_classes": dCtxList(thorough), "families": dtot.perFamily},
 			"part_c": map[string]any{"hot_slot_keys": cHot, "latchListCount": latch.VerifLatchListCount, "expire_ms": latch.VerifExpireMS, "timestamp_offsets_ms": cOffs, "max_depth_after_setup": ctot.maxDepth, "configs": ctot.perConfig}},
 		"part_c":                      ctot.covMap(),
+		"part_d":                      dtot.covMap(),
 		"terminal_states":             tot.terminal + ctot.terminal,
 		"distinct_terminal_outcomes":  len(tot.distinctTerminalOutcomes) + len(ctot.outcomes),
 		"real_ops_in_new_transitions": tot.realOps,
 		"real_ops_replayed":           tot.replayOps,
 		"outcome_counts": map[string]int64{"grants": tot.grant, "stale_at_first_acquire": tot.staleFirst, "stale_at_wakeup": tot.staleWake,
 			"blocked": tot.wait, "requeued_after_wakeup": tot.requeue, "wakeups": tot.wakeups, "wakeup_skipping_other_key_waiter_in_same_slot": tot.collisionSkip},
-		"samples": append(samples.List(), csamples.List()...),
+		"samples": append(append(samples.List(), csamples.List()...), dsamples.List()...),
 	}
 	if bres != nil {
 		cov["part_b"] = bres.covMap()
-		cov["traces_validated_against_impl"] = tot.transitions + ctot.transitions + bres.Executions
+		cov["traces_validated_against_impl"] = tot.transitions + ctot.transitions + dtot.cases + bres.Executions
 		for _, v := range bres.Viol {
 			run.Violation(v.Key, v.What, v.Replay)
 		}
@@ -558,6 +577,7 @@ func main() {
 		"keys inside one Lock are distinct (txn.go passes the distinct mutation keys); a stale lock is always unlocked with commitTS 0 and a granted one with 0 or a commit ts > its start ts, as txn.go does",
 		"part (a) models the single scheduler goroutine: unlocks are processed one at a time, wake-ups of one release are re-acquired in list order before the next unlock; callers' first acquires interleave freely (slot granularity: between any two slot critical sections)",
 		"visited set keyed by a 128-bit SHA-256 prefix of the canonical state",
+		"part (d): optimistic transactions on the in-repo mock cluster (one region, 2PC only - the mock declines async commit / 1PC), latches of size 2, per case fresh keys picked by their real slot id and a fresh LatchesScheduler on a long-lived store; timestamps come from the mock PD and are only compared with each other (start / commit ts as reported by the transaction); the reference model takes the latch decision of a sequential commit at the call, of a waiting commit after the holder's return; exclusivity is observed only while the holder is parked in the store client; at most one commit waits at a time (cut schedules are counted); a Commit that does not return within 30 s counts as a violation only with a positive stack diagnosis, otherwise as exhaustive:false; the latch verdicts of part (d) are deterministic, the STORE-side result of a commit that was woken right after a failed holder (success / write conflict / key exists) depends on the holder's asynchronous rollback and may differ between runs (counts under part_d.outcomes vary by a few units; the oracle does not depend on it)",
 		"part (b) is sequentially consistent by construction (one API call at a time, quiescence in between); true parallel interleavings are covered by the slot-granularity search of part (a), data races are not checked",
 	}
 	pprof.StopCPUProfile()
@@ -585,6 +605,10 @@ func doReplay(file string) {
 	}
 	if a.Part == "c" {
 		replayCArtefact(a)
+		return
+	}
+	if a.Part == "d" {
+		replayDArtefact(a)
 		return
 	}
 	lay := mkLayout(a.Size, a.Pat)
